@@ -315,6 +315,7 @@ pub fn emit_unit(db: &Db, contracts: &serde_json::Value, unit: &str) -> UnitOut 
             .iter()
             .map(|(n, k)| match k {
                 PartKind::Sc => format!("pub {n}: Sc"),
+                PartKind::Inner(i) => format!("pub {n}: {i}"),
                 PartKind::Deriv(..) => format!("pub {n}: Derivative"),
             })
             .collect::<Vec<_>>()
@@ -353,13 +354,22 @@ pub fn emit_unit(db: &Db, contracts: &serde_json::Value, unit: &str) -> UnitOut 
     let is_manual = |f: &Func| contracts["manual"][f.id().as_str()].is_object();
     // the constructor of a vector type has a field-wise contract (no mirror)
     let is_vec_new = |f: &Func| vec_unit && f.trait_.is_none() && f.name == "new";
-    // mirrors to fixpoint
+    // mirrors to fixpoint (for a nested unit also those of the inner type chain, which the outer bodies call)
+    let mut sig_types: Vec<String> = vec![unit.to_string()];
+    {
+        let mut t = unit.to_string();
+        while let Some((_, inner)) = db.nested.get(&t) {
+            sig_types.push(inner.clone());
+            t = inner.clone();
+        }
+    }
+    let sig_funcs: Vec<&Func> = db.funcs.iter().filter(|f| sig_types.contains(&f.ty) && allowed(f, contracts).is_ok()).collect();
     let mut sigs: HashMap<String, Mirror> = HashMap::new();
     let mut errs: HashMap<String, String> = HashMap::new();
     loop {
         let mut progress = false;
-        for f in &todo {
-            if sigs.contains_key(&f.mname) || is_manual(f) || is_vec_new(f) {
+        for f in &sig_funcs {
+            if sigs.contains_key(&f.mname) || is_manual(f) || (is_vec_new(f) && f.ty == unit) {
                 continue;
             }
             match eval::mirror_of(db, f, &sigs) {
@@ -422,6 +432,9 @@ pub fn emit_unit(db: &Db, contracts: &serde_json::Value, unit: &str) -> UnitOut 
         }
         let mut rw = Rw::new(ints);
         rw.float_unit = float_unit;
+        if let Some((o, i)) = db.nested.get(unit) {
+            rw.nested = Some((o.clone(), unit.to_string(), i.clone()));
+        }
         if f.prefix == "cf_" || f.prefix == "rf_" {
             for g in db.funcs.iter().filter(|g| g.ty == f.ty && (g.prefix == "cf_" || g.prefix == "rf_")) {
                 rw.field_methods.insert(g.name.clone(), format!("{}{}", g.prefix, g.name));
@@ -464,7 +477,15 @@ pub fn emit_unit(db: &Db, contracts: &serde_json::Value, unit: &str) -> UnitOut 
         }
         let mut body = block.to_token_stream().to_string();
         let hkey = format!("{}::{}{}", f.ty, f.prefix, f.name);
-        let hint = contracts["hints"][hkey.as_str()].as_str().or(if float_unit { None } else { contracts["hints"][format!("{}{}", f.prefix, f.name).as_str()].as_str() }).map(|h| format!("proof {{ {h} }} ")).unwrap_or_default();
+        let hint = contracts["hints"][hkey.as_str()].as_str().or(if float_unit { None } else { contracts["hints"][format!("{}{}", f.prefix, f.name).as_str()].as_str() }).map(|h| {
+            let h = if let Some((_, inner)) = db.nested.get(unit) {
+                let depth = inner.matches("__").count() + 1;
+                h.replace(".re@", &format!("{}@", ".re".repeat(depth + 1)))
+            } else {
+                h.to_string()
+            };
+            format!("proof {{ {h} }} ")
+        }).unwrap_or_default();
         if mut_self_by_value {
             body = format!("{{ {hint}let mut self_ = self; {} }}", &body[1..body.len() - 1]);
         } else if !hint.is_empty() {
@@ -524,6 +545,7 @@ pub fn emit_unit(db: &Db, contracts: &serde_json::Value, unit: &str) -> UnitOut 
             for ((p, k), n) in ti.parts.iter().zip(pnames.iter()) {
                 match k {
                     PartKind::Sc => ens.push(format!("{RES}.{p}@ == {n}@")),
+                    PartKind::Inner(_) => {}
                     PartKind::Deriv(..) => ens.push(format!("{RES}.{p} == {n}")),
                 }
             }
@@ -536,6 +558,12 @@ pub fn emit_unit(db: &Db, contracts: &serde_json::Value, unit: &str) -> UnitOut 
                 _ => "none",
             };
             reqs = table_requires(contracts, f, second_kind, recv_mut_ref, &p1);
+            if let Some((_, inner)) = db.nested.get(unit) {
+                // the domain is a condition on the innermost real part
+                let depth = inner.matches("__").count() + 1;
+                let inner_re = format!("{}@", ".re".repeat(depth + 1));
+                reqs = reqs.iter().map(|r| r.replace(".re@", &inner_re)).collect();
+            }
             for p in &ps {
                 if let Kind::Struct(t) = &p.kind {
                     if is_vec_type(db, t) {
@@ -623,7 +651,7 @@ pub fn emit_unit(db: &Db, contracts: &serde_json::Value, unit: &str) -> UnitOut 
             mirror.push_str(&emit_mirror(f, m));
         }
         // contract variants: the same verbatim body checked under a different (wider / special-point) domain
-        if !manual_mode && !float_unit && !f.is_std_op() && f.trait_.as_deref() != Some("Clone") {
+        if !manual_mode && !float_unit && db.nested.get(unit).is_none() && !f.is_std_op() && f.trait_.as_deref() != Some("Clone") {
             if let Some(vars) = contracts["variants"][format!("{}{}", f.prefix, f.name).as_str()].as_array() {
                 for v in vars {
                     let suffix = v["suffix"].as_str().unwrap_or("v");
